@@ -197,6 +197,20 @@ theorem call_rejects_zero_limit (cfg : Cfg) (outs : Nat → Outcome) (h : cfg.li
     call cfg outs = .error .limitAssertion := by
   simp [call, h]
 
+/-- C14.calls_independent: calls made through one wrapper object – one after the other, concurrently, or nested (the
+wrapped function calling the wrapper again) – do not influence each other: each makes its own `limit`+1 attempts and
+reports its own last outcome, exactly as if it were the only call. -/
+theorem calls_independent (cfg : Cfg) (before after : List (Nat → Outcome)) (outs : Nat → Outcome) :
+    (callMany cfg (before ++ outs :: after))[before.length]? = some (call cfg outs) := by
+  simp [callMany]
+
+/-- C14.cancellation_subclass_of_caught_never_retried: an exception that is an instance of `CancelledError` is never
+retried, even when it is *also* an instance of a caught `Exception` class (multiple inheritance) and even when
+`catching` lists it. -/
+theorem cancellation_subclass_of_caught_never_retried (cfg : Cfg) (e : Exc)
+    (hc : cfg.isSub e.cls clsCancelled = true) : retryable cfg (.raised e) = false := by
+  simp [retryable, hc]
+
 /-! ## Non-vacuity: concrete configurations and histories meeting the hypotheses -/
 
 /-- class table of the correspondence harness: 0 Exception, 1 CancelledError, 2 BaseException,
